@@ -73,7 +73,13 @@ def _dsp1(m):
         REPLAY[comp] = lambda c, r: m.env_pipeline(c, replay=r)
 
 
+def _frame(m):
+    SOURCES.append(("frame", lambda c: m.pipeline(c, "frame")))
+    SOURCES.append(("slice", lambda c: m.pipeline(c, "slice")))
+
+
 _optional("graph", _graph)
+_optional("frame", _frame)
 _optional("sample", _sample)
 _optional("signal", _signal)
 _optional("dsp1", _dsp1)
